@@ -318,7 +318,12 @@ class C01(Check):
             model.activity(r, start, NOLIMIT)
         nacts = len(prog['roots']) + sum(count_acts(r['steps']) for r in prog['roots'])
         probe = Probe(b_step=400 * (nacts + 5), b_total=4000 * (nacts + 5))
-        it, outcome, exc, p = execute(prog, probe)
+        # (every other program keeps one condition *object* per date - `deadline = time >= 10` used by several
+        #  activities, some of which are torn out of their wait before the date - instead of a new one per wait)
+        shared = prog.get('shared_dates', len(str(prog)) % 2 == 0)
+        it, outcome, exc, p = execute(prog, probe, hooks={'date_cache': {}} if shared else None)
+        if shared:
+            out.features.add('shared_date_objects')
         if outcome != 'ok':
             out.fail('run_outcome', '%s:%s' % (outcome, type(exc).__name__),
                      'run() ended with %s %r' % (outcome, exc))
